@@ -449,6 +449,9 @@ func (b *builder) build(s *Spec, label string) gen.V {
 		f["Enum"] = g.Anys(gen.Any(gen.TString(), absint.HoleStr(b.atom(s, "RawStr", "enum[0]", false))), gen.Any(gen.TFloat64(), absint.Num{A: b.atom(s, "Float", "enum[1]", true), IsFloat: true}), gen.Any(gen.TBool(), true), absint.Iface{})
 	case "null":
 		f["Enum"] = g.Anys(absint.Iface{})
+	case "collide":
+		// concrete strings that normalise to the same identifier
+		f["Enum"] = g.Anys(gen.Any(gen.TString(), absint.Lit("a-b")), gen.Any(gen.TString(), absint.Lit("a_b")), gen.Any(gen.TString(), absint.Lit("ab")))
 	case "lookalike":
 		// concrete values of different JSON types that print alike
 		f["Enum"] = g.Anys(gen.Any(gen.TFloat64(), float64(1)), gen.Any(gen.TString(), absint.Lit("1")), gen.Any(gen.TBool(), true), gen.Any(gen.TString(), absint.Lit("true")), absint.Iface{}, gen.Any(gen.TString(), absint.Lit("<nil>")))
